@@ -5,7 +5,7 @@
   All theorems hold for every idna codec, every sequence of events, every addon script (`acts`: what the addons do in
   each hook) and every script of connect outcomes (`conns`).
 -/
-import MitmVerif.Lemmas.C27c
+import MitmVerif.Lemmas.C27d
 import MitmVerif.Props.C25
 set_option linter.unusedVariables false
 set_option linter.unusedSimpArgs false
@@ -975,5 +975,113 @@ example : outsOf udp [] [] [.clientData q2q, .serverData r2p, .serverData r0, .s
 -- pending query without question: a reply with two questions is dropped, the one without question is forwarded
 example : outsOf udp [] [] [.clientData q0, .serverData r2q, .serverData r0] =
     ["request", "open", "server:5", "response", "client:5:0"] := by decide +kernel
+
+/-! ### whole histories: what follows `dns_error` and a failed connect; exceptions -/
+
+private theorem run_shape (K : Prop) (c : Cfg) (acts : List Act) (conns : List Bool) (evs : List Ev)
+    (h : ∀ m ∈ addonMsgs acts, K ∨ Packable c.I m) : Shape K c (run c (init acts conns) evs).2 :=
+  (run_goodS K c evs (init acts conns) ⟨by intro k f hm; simp [init] at hm, h⟩).2
+
+/-- **C27 (SERVFAIL after every `dns_error`, every history).** Whatever the client, the upstream and the addons do:
+    directly after every `dns_error` hook the layer sends to the client the SERVFAIL (`servfail_fields`: id, question
+    section, opcode and RD kept, QR=1, RCODE=2; `servfail_bytes`: it decodes to itself) of the flow's request, which is
+    a query decoded from the client's bytes; that message always encodes — no exception can come in between. -/
+theorem error_hook_then_servfail (c : Cfg) (acts : List Act) (conns : List Bool) (evs : List Ev)
+    (pre post : List Out) (f : Flow) (htr : (run c (init acts conns) evs).2 = pre ++ .hook .error f :: post) :
+    ∃ q b, f.request = some q ∧ (∃ w, unpack c.I w = some q) ∧ pack c.I (servfail q) = some b ∧
+      post.head? = some (.toClient (servfail q) (wireOf c.tcp b)) := by
+  have hs := run_shape True c acts conns evs (fun _ _ => Or.inl trivial)
+  rw [htr] at hs
+  exact Shape_at pre _ post hs
+
+/-- **C27 (no upstream answer possible ⇒ `dns_error`, every history).** Every failed attempt to connect to the upstream
+    — refused, or killed because an earlier attempt on this connection had failed — is directly followed by the
+    `dns_error` hook (and hence, by `error_hook_then_servfail`, by the SERVFAIL of the query). -/
+theorem failed_connect_then_error_hook (c : Cfg) (acts : List Act) (conns : List Bool) (evs : List Ev)
+    (pre post : List Out) (r : OpenRes) (hr : r = .fail ∨ r = .killed)
+    (htr : (run c (init acts conns) evs).2 = pre ++ .opened r :: post) :
+    ∃ f, post.head? = some (.hook .error f) := by
+  have hs := run_shape True c acts conns evs (fun _ _ => Or.inl trivial)
+  rw [htr] at hs
+  have := Shape_at pre _ post hs
+  rcases hr with h | h <;> rw [h] at this <;> exact this
+
+/-- **C27 (the layer never raises).** If every response the addon script sets can be encoded (`DNSMessage.packed` does
+    not raise on it), then in no history does an exception leave the layer: client queries, upstream replies and
+    synthesised SERVFAILs always encode, and no handler ever meets a flow without request. -/
+theorem layer_never_raises (c : Cfg) (acts : List Act) (conns : List Bool) (evs : List Ev)
+    (hadd : ∀ m ∈ addonMsgs acts, ∃ b, pack c.I m = some b) : Out.crash ∉ (run c (init acts conns) evs).2 := by
+  have hs := run_shape False c acts conns evs (fun m hm => Or.inr (hadd m hm))
+  intro hmem
+  obtain ⟨pre, post, he⟩ := List.append_of_mem hmem
+  rw [he] at hs
+  exact Shape_at pre _ post hs
+
+example : Out.crash ∉ (run udp (init [.err, .clear] [false]) [.clientData q1, .serverData r1, .clientData q2]).2 :=
+  layer_never_raises udp _ _ _ (by intro m hm; simp [addonMsgs] at hm)
+
+/-- **C27 (no upstream ⇒ an addon's response or `dns_error`, every history).** On a connection without upstream
+    server, every `dns_request` hook is directly followed by `dns_response` (an addon has set a response) or by
+    `dns_error` (and hence by the SERVFAIL of the query, `error_hook_then_servfail`). -/
+theorem no_upstream_request_then_response_or_error (c : Cfg) (hup : c.upstream = false) (acts : List Act) (conns : List Bool)
+    (evs : List Ev) (pre post : List Out) (f : Flow)
+    (htr : (run c (init acts conns) evs).2 = pre ++ .hook .request f :: post) :
+    (∃ f', post.head? = some (.hook .response f')) ∨ (∃ f', post.head? = some (.hook .error f')) := by
+  have hs := run_shape2 c hup evs (init acts conns)
+  rw [htr] at hs
+  have h := Shape2_at pre _ post hs
+  obtain ⟨q, hq, _, _⟩ := flow_has_query c acts conns evs pre post .request f htr
+  rcases h with h | h
+  · rw [hq] at h; cases h
+  · cases hp : post.head? with
+    | none => rw [hp] at h; exact absurd h (by simp [isRespOrErrHook])
+    | some o =>
+      rw [hp] at h
+      cases o with
+      | hook hk f' =>
+        cases hk with
+        | request => exact absurd h (by simp [isRespOrErrHook])
+        | response => exact Or.inl ⟨f', rfl⟩
+        | error => exact Or.inr ⟨f', rfl⟩
+      | _ => exact absurd h (by simp [isRespOrErrHook])
+
+/-- **C27 (a malformed length prefix closes the connection, every history, no alternative).** After any history in which
+    the layer is still serving, over TCP, if the addons' responses can be encoded: when the client's bytes (buffer plus new
+    segment) are complete frames followed by a zero length prefix, the messages in front of it are handled, then the
+    client connection is closed and the layer is done — the `crashed` alternative of `bad_length_closes` cannot occur. -/
+theorem bad_length_closes_history (c : Cfg) (htcp : c.tcp = true) (acts : List Act) (conns : List Bool) (evs : List Ev)
+    (hadd : ∀ m ∈ addonMsgs acts, ∃ b, pack c.I m = some b) (d x rest : Bytes) (ms : List Msg)
+    (hq : (run c (init acts conns) evs).1.core.phase = .query)
+    (hx : (run c (init acts conns) evs).1.reqBuf ++ d = x ++ 0 :: 0 :: rest) (hms : parse c.I x = (ms, [], false)) :
+    (step c (run c (init acts conns) evs).1 (.clientData d)).1.core.phase = .done ∧
+    (step c (run c (init acts conns) evs).1 (.clientData d)).2 =
+      (handleMsgs c true (run c (init acts conns) evs).1.core ms).2 ++ [.closeClient] := by
+  obtain ⟨h1, h2, h3⟩ := bad_length_closes c htcp _ hq d x rest ms hx hms
+  have hnc := layer_never_raises c acts conns (evs ++ [.clientData d]) hadd
+  rw [run_snoc] at hnc
+  have hdone : (step c (run c (init acts conns) evs).1 (.clientData d)).1.core.phase = .done := by
+    cases hp : (step c (run c (init acts conns) evs).1 (.clientData d)).1.core.phase with
+    | query => exact absurd hp h1
+    | done => rfl
+    | crashed => exact absurd (List.mem_append_right _ (h3 hp)) hnc
+  exact ⟨hdone, h2 hdone⟩
+
+/-- … and the same for the upstream's stream -/
+theorem bad_length_closes_server_history (c : Cfg) (htcp : c.tcp = true) (acts : List Act) (conns : List Bool) (evs : List Ev)
+    (hadd : ∀ m ∈ addonMsgs acts, ∃ b, pack c.I m = some b) (d x rest : Bytes) (ms : List Msg)
+    (hq : (run c (init acts conns) evs).1.core.phase = .query) (ho : (run c (init acts conns) evs).1.core.serverOpen = true)
+    (hx : (run c (init acts conns) evs).1.respBuf ++ d = x ++ 0 :: 0 :: rest) (hms : parse c.I x = (ms, [], false)) :
+    (step c (run c (init acts conns) evs).1 (.serverData d)).1.core.phase = .done ∧
+    (step c (run c (init acts conns) evs).1 (.serverData d)).2 =
+      (handleMsgs c false (run c (init acts conns) evs).1.core ms).2 ++ [.closeServer] := by
+  obtain ⟨h1, h2, h3⟩ := bad_length_closes_server c htcp _ hq ho d x rest ms hx hms
+  have hnc := layer_never_raises c acts conns (evs ++ [.serverData d]) hadd
+  rw [run_snoc] at hnc
+  have hdone : (step c (run c (init acts conns) evs).1 (.serverData d)).1.core.phase = .done := by
+    cases hp : (step c (run c (init acts conns) evs).1 (.serverData d)).1.core.phase with
+    | query => exact absurd hp h1
+    | done => rfl
+    | crashed => exact absurd (List.mem_append_right _ (h3 hp)) hnc
+  exact ⟨hdone, (h2 hdone).1⟩
 
 end MitmVerif.Props.C27
